@@ -294,6 +294,20 @@ struct dump_page {
 #define pfn_idx3(pfn) \
 	((uint32_t)(pfn) & (PFN_IDX3_SIZE - 1))
 
+/** Level-1 table index of a PFN.
+ * The macros above split the low 32 bits of a PFN.  Any higher bits
+ * extend the level-1 index, so that PFNs which differ only above
+ * bit 31 never share a slot.
+ */
+static inline kdump_pfn_t
+pfn_l1_index(kdump_pfn_t pfn)
+{
+	return pfn_idx1(pfn) | ((pfn >> 32) << PFN_IDX1_BITS);
+}
+
+/** Mask of the PFN bits that select the level-2 slot (and above). */
+#define PFN_TBL_MASK	(~(kdump_pfn_t)PFN_IDX3_MASK)
+
 /**  Contiguous block of pages
  *
  * Storing only a 32-bit offset from the block beginning saves
@@ -326,7 +340,7 @@ struct lkcd_priv {
 
 	mutex_t pfn_block_mutex;
 	struct pfn_block ***pfn_level1;
-	unsigned l1_size;
+	size_t l1_size;
 
 	/** Overridden methods for arch.page_size attribute. */
 	struct attr_override page_size_override;
@@ -346,9 +360,9 @@ get_pfn_slot(kdump_ctx_t *ctx, kdump_pfn_t pfn)
 {
 	struct lkcd_priv *lkcdp = ctx->shared->fmtdata;
 	struct pfn_block **l2;
-	unsigned idx;
+	kdump_pfn_t idx;
 
-	idx = pfn_idx1(pfn);
+	idx = pfn_l1_index(pfn);
 	if (idx >= lkcdp->l1_size) {
 		struct pfn_block ***new_l1;
 		new_l1 = realloc(lkcdp->pfn_level1,
@@ -494,13 +508,14 @@ lookup_pfn_block(kdump_ctx_t *ctx, kdump_pfn_t pfn, unsigned short tolerance)
 {
 	struct lkcd_priv *lkcdp = ctx->shared->fmtdata;
 	struct pfn_block **l2, *block;
+	kdump_pfn_t idx1;
 	unsigned idx;
 
-	idx = pfn_idx1(pfn);
-	if (idx >= lkcdp->l1_size)
+	idx1 = pfn_l1_index(pfn);
+	if (idx1 >= lkcdp->l1_size)
 		return NULL;
 
-	l2 = lkcdp->pfn_level1[idx];
+	l2 = lkcdp->pfn_level1[idx1];
 	if (!l2)
 		return NULL;
 
@@ -612,7 +627,7 @@ search_page_desc(kdump_ctx_t *ctx, kdump_pfn_t pfn,
 		curpfn = dp->dp_address >> get_page_shift(ctx);
 		if (!block)
 			block = lookup_pfn_block(ctx, curpfn, MAX_PFN_GAP);
-		else if (blocktbl != (curpfn & ~PFN_IDX3_MASK) ||
+		else if (blocktbl != (curpfn & PFN_TBL_MASK) ||
 			 !idx_fits_block(pfn_idx3(curpfn), block)) {
 			realloc_pfn_offs(block, block->n);
 			block = lookup_pfn_block(ctx, curpfn, MAX_PFN_GAP);
@@ -638,7 +653,7 @@ search_page_desc(kdump_ctx_t *ctx, kdump_pfn_t pfn,
 			}
 		}
 
-		blocktbl = curpfn & ~PFN_IDX3_MASK;
+		blocktbl = curpfn & PFN_TBL_MASK;
 		if (!block) {
 			block = alloc_pfn_block(ctx, curpfn);
 			if (!block)
